@@ -49,6 +49,10 @@ VERIF_MAIN {
   ASSERT((out[8] & (8 | 16)) == 0, "C15 every non-empty indexed level owns a PGM-index built over exactly its keys");
   ASSERT((out[8] & 32) == 0, "C15 the index of an emptied level is reset");
 #endif
+#if DMODE == 5
+  ASSERT(out[0] == (unsigned long) present[q[0]], "C05 find(k) hits iff k is live");
+  if (present[q[0]]) ASSERT(out[1] == val[q[0]], "C05 find(k) yields the most recently assigned value");
+#endif
 #if DMODE == 0
   ASSERT(out[0] == (unsigned long) present[q[0]], "C05 find(k) hits iff k is live");
   if (present[q[0]]) ASSERT(out[1] == val[q[0]], "C05 find(k) yields the most recently assigned value");
